@@ -569,6 +569,7 @@ structure SavedBackend (fmt : R → List UInt8) (b b' : BDoc R) (i : SaveInfo) :
   start : b'.doc.st.start = b.doc.st.start
   startxref : b'.doc.st.startxref = i.xpos
   xpos_ge : b.doc.st.len ≤ b.doc.st.start + i.xpos
+  xpos_le : b.doc.st.start + i.xpos ≤ b'.bytes.length
   secs : b'.doc.st.secs = b.doc.st.secs ++
       [⟨b.doc.st.start + i.xpos, [⟨0, i.rows⟩], i.size, b.doc.tr.prev, b.doc.tr.root, (prep b.doc).infoRef⟩]
   objs : ∃ ext, b'.doc.st.objs = b.doc.st.objs ++ ext ++
@@ -606,7 +607,8 @@ theorem saveB_backend (fmt : R → List UInt8) (d0 : Doc (Prim R)) (chain0) (b b
     have hx : i.xpos = w.len - (prep b.doc).st2.start := hxpos
     rw [hx, ← pf.start_same]; omega
   have hge : b.doc.st.len ≤ w.len := by rw [← pf.len_same]; exact k1
-  refine ⟨by rw [hst]; exact pf.start_same, by rw [hst]; exact hxpos.symm, by omega, ?_, ?_⟩
+  refine ⟨by rw [hst]; exact pf.start_same, by rw [hst]; exact hxpos.symm, by omega, ?_, ?_, ?_⟩
+  · rw [hbytes, ← hwl, ← b1]; simp only [revisionBytes, List.length_append]; omega
   · rw [hst]; simp only [commit]; rw [pf.secs_eq, hwl, hsize]
   · refine ⟨ext, ?_, ?_⟩
     · rw [hst]; simp only [commit]; rw [hinfo, e1, pf.objs_eq, hwl, hxid]; rfl
